@@ -6,6 +6,7 @@ import (
 	"fmt"
 	"go/token"
 	"sort"
+	"strconv"
 	"strings"
 
 	"golang.org/x/tools/go/ssa"
@@ -14,13 +15,19 @@ import (
 func init() { register("C20", true, checkC20) }
 
 func checkC20(p *Prog, r *Report) {
-	r.Explain("PLANE: every call of a body-less (assembly) function that receives the raw Y/Cb/Cr planes is dominated by guards that establish the layout the kernel assumes — 4:4:4 subsampling, rectangle origin (0,0), YStride == CStride == width, width a multiple of 8, and destination and planes holding at least width·height elements. ASMPLANE: the kernel's text is read: two counted loops (y up to maxY, x in steps of 8 up to maxX with an equality exit), 8-byte loads at plane + y·stride + x, one 32-byte store at pixels + 4·(y·yStride + x); substituting the PLANE guards, the largest offsets are width·height − 1 for loads and stores alike, and the equality exit is reached because 8 divides the width. OFFS / OFFS-C: in the portable converters every index into img.Y comes from YOffset (or a multiple of the stride) and every index into img.Cb/Cr from COffset with the same coordinates — hand-written chroma arithmetic is rejected because it is only right for one subsampling ratio and origin parity. ORIGIN: the coordinates handed to YOffset/COffset/At are loop index + Rect.Min. The 2.0 tolerance between the assembly and portable arithmetic is numerical and not decided.")
+	r.Explain("PLANE: every call of a body-less (assembly) function that receives the raw Y/Cb/Cr planes is dominated by guards that establish the layout the kernel assumes — 4:4:4 subsampling, rectangle origin (0,0), YStride == CStride == width, width a multiple of 8, and destination and planes holding at least width·height elements. ASMPLANE: the kernel's text is read: two counted loops (y up to maxY, x in steps of 8 up to maxX with an equality exit), 8-byte loads at plane + y·stride + x, one 32-byte store at pixels + 4·(y·yStride + x); substituting the PLANE guards, the largest offsets are width·height − 1 for loads and stores alike, and the equality exit is reached because 8 divides the width. OFFS / OFFS-C: in the portable converters every index into img.Y comes from YOffset (or a multiple of the stride) and every index into img.Cb/Cr from COffset with the same coordinates — hand-written chroma arithmetic is rejected because it is only right for one subsampling ratio and origin parity. ORIGIN: the coordinates handed to YOffset/COffset/At are loop index + Rect.Min. The 2.0 tolerance between the assembly and portable arithmetic is numerical and not decided. ASMCONST: the six integer entries of the kernel constant table constyCbCrGray (chroma bias, luma scale, the four BT.601 coefficients) each occur as an integer constant of the portable converter yCbCrToGrayAlt.")
 	r.Trusted("image.YCbCr.YOffset/COffset implement the subsampling arithmetic", "x86 access widths: VPMOVZXBD m64→ymm reads 8 bytes, VMOVAPS ymm→m256 writes 32")
 	rulePlane(p, r)
 	ruleAsmPlane(p, r)
 	ruleOffs(p, r)
 	ruleOffsChroma(p, r)
 	ruleOrigin(p, r, "C20")
+	if af, err := parseAsm(asmPath(p)); err != nil {
+		r.Undecided("ASMCONST", "asm_x86.s", "-", "cannot read the assembly file: "+err.Error())
+	} else {
+		ruleAsmConst(p, r, af)
+	}
+	r.Floor("ASMCONST", 1)
 	r.Floor("PLANE", 1)
 	r.Floor("ASMPLANE", 1)
 	r.Floor("OFFS", 3)
@@ -381,4 +388,71 @@ func hashPkgFns(p *Prog, hash []*ssa.Function) []*ssa.Function {
 	}
 	sortFns(out)
 	return out
+}
+
+// ---- ASMCONST: the vector kernel's integer coefficients are the portable converter's ------------------------------
+//
+// asmYCbCrToGray takes its fixed-point YCbCr→RGB coefficients from the table constyCbCrGray<> (the first six 32-bit
+// entries: the chroma bias 128, the luma scale 0x10101 and the four BT.601 coefficients). The portable converter
+// yCbCrToGrayAlt carries the same numbers as literals. Every integer entry of the table must occur (up to sign) as an
+// integer constant of the portable converter: a digit slip in one of the two copies moves the vector kernel's
+// luminance away from the portable one in proportion to the chroma, past the 2.0 tolerance for saturated colours.
+func ruleAsmConst(p *Prog, r *Report, af *asmFile) {
+	key := "asm_x86.s constyCbCrGray<> | integer coefficients equal the portable converter's"
+	f := p.Func("imagehash/transforms32", "", "yCbCrToGrayAlt")
+	if f == nil {
+		r.Undecided("ASMCONST", key, "-", "unresolved anchor: portable converter")
+		return
+	}
+	goConsts := map[int64]bool{}
+	eachInstr(f, func(_ *ssa.BasicBlock, _ int, in ssa.Instruction) {
+		var ops []*ssa.Value
+		for _, o := range in.Operands(ops) {
+			if c, ok := (*o).(*ssa.Const); ok && c.Value != nil && isIntType(c.Type()) {
+				if k, ok := constInt(c); ok {
+					if k < 0 {
+						k = -k
+					}
+					goConsts[k] = true
+				}
+			}
+		}
+	})
+	var ints []int64
+	n := 0
+	for _, d := range af.data {
+		if d.sym != "constyCbCrGray" || d.size != 4 {
+			continue
+		}
+		v := strings.TrimSpace(d.val)
+		if strings.HasPrefix(v, "(") { // floating-point entry
+			continue
+		}
+		v = strings.TrimPrefix(v, "+")
+		k, err := strconv.ParseInt(v, 0, 64)
+		if err != nil {
+			r.Undecided("ASMCONST", key, "-", "entry not understood: "+d.val)
+			return
+		}
+		n++
+		if k < 0 {
+			k = -k
+		}
+		ints = append(ints, k)
+	}
+	if n < 6 {
+		r.Undecided("ASMCONST", key, "-", fmt.Sprintf("only %d integer entries found in constyCbCrGray<>", n))
+		return
+	}
+	var missing []string
+	for _, k := range ints {
+		if !goConsts[k] {
+			missing = append(missing, fmt.Sprint(k))
+		}
+	}
+	if len(missing) > 0 {
+		r.Bad("ASMCONST", key, p.posStr(f.Pos()), "the table holds "+strings.Join(missing, ", ")+", which the portable converter yCbCrToGrayAlt does not use: the two implementations compute different luminance for pixels with strong chroma")
+	} else {
+		r.OK("ASMCONST", key, p.posStr(f.Pos()), fmt.Sprintf("%d integer entries, each a constant of yCbCrToGrayAlt", n))
+	}
 }
